@@ -245,7 +245,7 @@ void verif_enum(Enum &e) {
 		e.scope(name, count);
 		return true;
 	};
-	if(!all(0, "%$*.-+01 9lhdscx", th ? 5 : 4, "printf_format: all strings over \"%$*.-+01 9lhdscx\" up to the bound")) return;
+	if(!all(0, "%$*.-+01 9lhdscx'#", th ? 5 : 4, "printf_format: all strings over \"%$*.-+01 9lhdscx'#\" up to the bound")) return;
 	if(!all(1, "{}:019xc", th ? 6 : 5, "fmt: all strings over \"{}:019xc\" up to the bound")) return;
 	if(!all(1 + 4, "{}:019xc", 4, "fmt without arguments: all strings over \"{}:019xc\" up to length 4")) return;
 	if(!all(2, "\" =a1", th ? 8 : 7, "parse_arguments (table 0): all strings over '\" =a1' up to the bound")) return;
